@@ -1,6 +1,7 @@
 package hx
 
 import (
+	"sync/atomic"
 	"context"
 	"encoding/json"
 	"fmt"
@@ -23,6 +24,8 @@ type Fed struct {
 	GW        *gateway.Gateway
 	Merged    *ast.Schema         // captured through WithPlanner on the first planning call
 	Locations gateway.FieldURLMap // idem
+	// PlanDelayNanos, when set, makes every Plan call of this federation's planner take at least that long
+	PlanDelayNanos int64
 	Store     Store
 }
 
@@ -46,6 +49,10 @@ func (c *capPlanner) Plan(ctx *gateway.PlanningContext) (gateway.QueryPlanList, 
 		c.fed.Merged = ctx.Schema
 		c.fed.Locations = ctx.Locations
 	})
+	if d := atomic.LoadInt64(&c.fed.PlanDelayNanos); d > 0 {
+		// keeps the request inside the planner for a while (so that concurrent requests overlap there)
+		time.Sleep(time.Duration(d))
+	}
 	return c.inner.Plan(ctx)
 }
 func (c *capPlanner) WithQueryerFactory(f *gateway.QueryerFactory) gateway.QueryPlanner {
